@@ -25,24 +25,26 @@ ID = "C18"
 EXTRACT = "ExC18"
 TECHNIQUE = (
     "Coq proof (per-operation agreement of two executable file-system models under the server's guard "
-    "preconditions, composed over guarded command sequences; vm_compute witnesses for the divergences) + "
-    "py2v-regenerated method table of PathIO/AsyncPathIO/MemoryPathIO with closed obligations; models tied to the "
-    "real MemoryPathIO, to real PathIO on the real kernel and to three real FTP servers by differential correspondence"
+    "preconditions, composed over all command sequences; the API-level agreement domain with vm_compute witnesses for "
+    "its excluded cells) + py2v-regenerated method table of PathIO/AsyncPathIO/MemoryPathIO with closed obligations; "
+    "models tied to the real MemoryPathIO, to real PathIO on the real kernel and to three real FTP servers by "
+    "differential correspondence"
 )
 LEVEL_TEXT = (
-    "Proved (Closed under the global context): C18_backends_agree_partial - for every tree with unique names and "
-    "every command sequence whose steps avoid the four refuted shapes, the server model over MemFS and over "
-    "PosixFS gives identical replies, payloads and trees after every command, and a failing command changes nothing; "
-    "per-operation agreement lemmas for mkd/rmd/dele/rnto/stor/appe/retr/list/cwd under exactly the handler's "
-    "PathConditions; C18_*_refuted witnesses (REST+STOR to a missing file, RNTO into the source's own subtree, RNTO "
-    "below a file, RNTO onto the vanished source's own path); C18_fs_backends_equal from the closed obligation "
-    "same_calls Gen.PathIOTable.table = true; C18_three_backends_agree_partial (any backend with PathIO's outcomes gives "
-    "PathIO's sessions); C18_api_mem_posix_agree_partial / C18_open_matrix_agree - on the decidable domain api_ok (every "
-    "query, mkdir with every flag, rmdir/unlink, rename onto a missing destination outside the refuted shapes, open in "
-    "every mode with every seek/read/write script inside the matrix) MemFS and PosixFS agree after every operation of "
-    "every sequence, with a *_cell_refuted witness for every excluded cell; C18_retr_blocks_payload (the block loop of "
-    "RETR delivers what one read(-1) returns, for every block size). The file-system models are hand-written: MemFS is tied to the real "
-    "MemoryPathIO, PosixFS to the real kernel through PathIO, the server model to three real servers, by "
+    "Proved (Closed under the global context): C18_backends_agree - for every tree, every pending rename_from and every "
+    "command sequence without a mutation aimed at the root itself (the property's own exclusion), the server model over "
+    "MemFS and over PosixFS gives identical replies, payloads and trees after every command, and a failing command "
+    "changes nothing; C18_three_backends_agree adds any backend with PathIO's outcomes (AsyncPathIO); per-operation "
+    "agreement lemmas for mkd/rmd/dele/rnto/stor/appe/retr/list/cwd under exactly the handler's PathConditions (RNTO and "
+    "STOR/APPE without further conditions since MemoryPathIO's r+b open and rename were repaired: F06, F07a, F07b, F17 "
+    "are `fixed`; their four witnesses are kept as computed cases C18_former_*_agrees and as corpus sessions); "
+    "C18_fs_backends_equal from the closed obligation same_calls Gen.PathIOTable.table = true; "
+    "C18_api_mem_posix_agree_partial / C18_open_matrix_agree - on the decidable domain api_ok (every query, mkdir with "
+    "every flag, rmdir/unlink, rename onto a missing destination, open in every mode with every seek/read/write script "
+    "inside the matrix) MemFS and PosixFS agree after every operation of every sequence, with a *_cell_refuted witness "
+    "for every excluded cell (none reachable through the server); C18_retr_blocks_payload (the block loop of RETR "
+    "delivers what one read(-1) returns, for every block size). The file-system models are hand-written: MemFS is tied "
+    "to the real MemoryPathIO, PosixFS to the real kernel through PathIO, the server model to three real servers, by "
     "bounded-exhaustive + random differential runs; so: proof about the models + sampled agreement with the code."
 )
 LEVEL_NOTE = (
@@ -184,12 +186,13 @@ def blank_canon(c):
     return c
 
 
-# the witnesses of Props/C18.v C18_*_cell_refuted / C18_rename_over_existing_refuted, on TREES[0] (g = b"xyz12")
+# the witnesses of Props/C18.v C18_*_cell_refuted / C18_rename_over_existing_refuted, on TREES[0] (g = b"xyz12");
+# ('r+b' on a missing file, the former fourth cell, is inside the domain since the repair of F06: it is in the
+#  exhaustive length-1 alphabet and must agree there)
 CELL_WITNESSES = [
     ("rb+write", 0, ("open", ["g"], "rb", [("write", b"Q")])),
     ("wb+read", 0, ("open", ["g"], "wb", [("write", b"Q"), ("seek", 0), ("read", -1)])),
     ("ab+seek+write", 0, ("open", ["g"], "ab", [("seek", 0), ("write", b"Q")])),
-    ("r+b-missing", 0, ("open", ["m"], "r+b", [])),
     ("rename-over-existing", 0, ("rename", ["g"], ["d"])),
 ]
 
@@ -587,8 +590,9 @@ def ftp_sequences(ctx, thorough):
     rng = ctx.rng
     c1 = ftp_cmds1()
     mut = ftp_mutators()
-    seqs = [[c] for c in c1]
-    ctx.count("ftp_len1_exhaustive", len(seqs))
+    seqs = [list(x) for x in FORMER_WITNESSES.values()] + [[c] for c in c1]
+    ctx.count("ftp_former_finding_witnesses", len(FORMER_WITNESSES))
+    ctx.count("ftp_len1_exhaustive", len(c1))
     n = len(seqs)
     for a in FTP_PATHS:
         for b in FTP_PATHS:
@@ -742,18 +746,23 @@ def correspondence(ctx):
         ctx.obligation_broken("extraction-crosscheck", out)
 
 
-# the recorded findings, each as the FTP session that shows it
-KNOWN_REPLAYS = {
+# The sessions that showed the four defects of MemoryPathIO repaired in /repo (F06, F07a, F07b, F17; see
+# known_findings.json `fixed`).  They are ordinary corpus cases now (first entries of ftp_sequences in both tiers):
+# the three-way oracle must hold on them, so a regression is reported again as an unlisted VIOLATION whose replay
+# key (computed by classify) is the old, specific one.
+FORMER_WITNESSES = {
     "ftp:rest+stor:missing-file-created-by-memory": [("STOR", "/m", b"PQ", 2)],
     "ftp:rest+appe:missing-file-created-by-memory": [("APPE", "/m", b"PQ", 2)],
     "ftp:rnto:into-own-subtree-memory-loses-subtree": [("RNFR", "/d"), ("RNTO", "/d/e/h")],
     "ftp:rnto:parent-is-file-memory-removes-source": [("RNFR", "/d"), ("RNTO", "/g/x")],
     "ftp:rnto:same-path-source-gone-memory-says-ok": [("RNFR", "/d/f"), ("DELE", "/d/f"), ("RNTO", "/d/f")],
 }
+# findings of this property that are still open, each as the FTP session that shows it (none at present)
+KNOWN_REPLAYS = {}
 
 
 def known(ctx):
-    """replay every recorded finding on the real servers; report the ones that still reproduce"""
+    """replay every recorded (unrepaired) finding on the real servers; report the ones that still reproduce"""
     todo = []
     for f in ctx.kf:
         for key in f.get("keys", []):
